@@ -765,6 +765,8 @@ val rmtree_go : nat -> st -> eref -> st res
 
 val op_removetree : st -> namerec list -> st res
 
+val year_ok : now_rec option -> bool
+
 val op_setinfo :
   st -> namerec list -> now_rec option -> now_rec option -> now_rec option ->
   st res
